@@ -29,7 +29,7 @@ func init() {
 		Assumptions: []string{"crash = os.Exit in a hook; power loss = truncation of files whose content no completed sync covers; directory-entry durability not modelled"},
 		Batches:     tiered(48, 640),
 		Run:         runC08,
-		Timeout:     timeoutFor(10*time.Minute, 45*time.Minute),
+		Timeout:     timeoutFor(3*time.Minute, 45*time.Minute),
 	})
 }
 
